@@ -19,6 +19,13 @@ def is_real_kind(v):
     return isinstance(v, (float, np.floating))
 
 
+# Frame comparisons (snapshot of an object vs the same object later: C18) switch this on: Polygon._vertices is constructor data there.
+# Round-trip comparisons (C01 / C02: a polygon re-constructed from the file) leave it off: the re-oriented ring of the second
+# construction is equal to the first only by an argument about the sign of the area polynomial that z3 does not find, and the
+# counter-models did not replay (DESIGN.md section 10, entry 21).
+POLYGON_VERTICES_PRIMARY = False
+
+
 def approx_parts(a, b, tol, F=None, ignore=(), path=""):
     """(condition, parts): parts name every leaf comparison by its attribute path (for diagnostics)"""
     parts = []
@@ -108,6 +115,8 @@ def _approx_eq(a, b, tol, F=None, ignore=(), path="", sets_as_sets=True, _depth=
         except Exception:
             raise Unsupported("approx_eq on %r" % ca)
     ig = set(ignore) | set(CACHE_ATTRS)
+    if POLYGON_VERTICES_PRIMARY and getattr(ca, "__name__", "") == "Polygon":
+        ig.discard("_vertices")  # primary data of a Polygon (a derived cache only for Rectangle)
     # an attribute that is absent on one side and None on the other is 'unset' on both
     def unset(k, v):
         # an absent value and an empty collection carry the same (no) content
